@@ -8,7 +8,30 @@ import (
 	"verif/harness/busdrv"
 )
 
+// scriptKey identifies a script for the distinct count; a script without any registration or without any publish
+// is trivial (empty key: executed and validated, but not counted as a distinct non-trivial case).
 func scriptKey(s busdrv.Script) string {
+	subs, pubs := 0, 0
+	var walk func(ops []busdrv.Op)
+	walk = func(ops []busdrv.Op) {
+		for _, o := range ops {
+			switch o.Op {
+			case "sub":
+				subs++
+				walk(o.Body)
+			case "pub":
+				pubs++
+			}
+		}
+	}
+	walk(s.Setup)
+	for _, p := range s.Procs {
+		walk(p)
+	}
+	walk(s.Final)
+	if subs == 0 || pubs == 0 {
+		return ""
+	}
 	b, _ := json.Marshal(s)
 	h := sha1.Sum(b)
 	return hex.EncodeToString(h[:8])
